@@ -91,6 +91,14 @@ func (c *Channel) LeavePresence(ctx context.Context, status string, p stanza.Pre
 	ctx, cancel := context.WithCancel(ctx)
 	defer cancel()
 
+	// The departure notification is kept (the depart channel has room for one)
+	// so that it is not lost if it arrives before we wait for it below; drop a
+	// stale one left by a departure nobody was waiting for.
+	select {
+	case <-c.depart:
+	default:
+	}
+
 	errChan := make(chan error)
 	go func(errChan chan<- error) {
 		resp, err := c.session.SendPresenceElement(ctx, inner, p)
